@@ -79,6 +79,15 @@ Expr == [t |-> "binop", id |-> 0, op |-> op, bool |-> bool, k |-> 0, v |-> <<0, 
          b |-> IF mode = "vs" THEN Lit ELSE IF mode = "sv" THEN SumBy(RangeOf(1, <<97>>)) ELSE SumBy(RangeOf(2, <<98>>))]
 Case == [in |-> [recs |-> RecsOf(A, <<97>>, Zs, 0) \o RecsOf(B, <<98>>, Zs, 10), expr |-> Expr,
                  evals |-> << [start |-> Base + 50, end |-> Base + 50, step |-> 0], [start |-> Base + 40, end |-> Base + 70, step |-> 15] >>, reps |-> 1]]
+\* the same vectors, but varying over the steps of a range query: A and B in the first window, only B in the second, nothing in the third
+\* (a join must be computed from the samples of ITS step only)
+RangeN(e) == [e EXCEPT !.range = 30]
+SumByN(id, app) == SumBy(RangeN(RangeOf(id, app)))
+ExprN == [Expr EXCEPT !.a = IF mode = "sv" THEN Lit ELSE SumByN(1, <<97>>),
+                      !.b = IF mode = "vs" THEN Lit ELSE IF mode = "sv" THEN SumByN(1, <<97>>) ELSE SumByN(2, <<98>>)]
+CaseN == [in |-> [recs |-> RecsOf(A, <<97>>, Zs, 0) \o RecsOf(B, <<98>>, Zs, 10) \o RecsOf(B, <<98>>, Zs, 40), expr |-> ExprN,
+                  evals |-> << [start |-> Base + 35, end |-> Base + 95, step |-> 30] >>, reps |-> 1]]
 Export == pc = "eval" /\ pc' = "done" /\ UNCHANGED <<A, B, mode, op, bool, scalar>> /\ PrintT(<<"CASE", ToJson(Case)>>)
+          /\ (mode = "vv" => PrintT(<<"CASE", ToJson(CaseN)>>))
 Next == Choose \/ Export
 =============================================================================
